@@ -192,10 +192,28 @@ pub fn gen_cli(t: &mut Tape) -> Cli {
     };
     let mut groups = Vec::new();
     for g in 0..ngroups {
-        let spec = match t.weighted(&[2, 10, 2]) {
+        let w: [u32; 4] = if crate::engine::gen_version() >= 2 { [2, 8, 2, 4] } else { [2, 10, 2, 0] };
+        let spec = match t.weighted(&w) {
             0 => None,
             1 => Some(t.pick(VALID_SPECS).to_string()),
-            _ => Some(t.pick(INVALID_SPECS).to_string()),
+            2 => Some(t.pick(INVALID_SPECS).to_string()),
+            _ => {
+                // v2: a format that takes parameters, with every parameter value drawn from a boundary list
+                // (valid values, their neighbours, 0 and 1, non-numbers); which ones are allowed is the model's call
+                let name = *t.pick(&["annotated", "annotated", "tcgame", "intelhex", "annotatedbin", "hexdump"]);
+                let mut spec = name.to_string();
+                let mut keys = vec!["base", "group", "addr_unit"];
+                for _ in 0..t.weighted(&[1, 5, 3]) {
+                    let k = keys.remove(t.below(keys.len()));
+                    let v = match k {
+                        "base" => *t.pick(&["0", "1", "2", "3", "4", "6", "8", "10", "16", "17", "32", "36", "64", "100", "128", "129", "256", "x", ""]),
+                        "group" => *t.pick(&["0", "1", "2", "3", "4", "7", "8", "16", "64", "-1", "two"]),
+                        _ => *t.pick(&["0", "1", "4", "8", "9", "12", "16", "24", "32", "33", "64", "0x10"]),
+                    };
+                    spec.push_str(&format!(",{}:{}", k, v));
+                }
+                Some(spec)
+            }
         };
         // v2: a group may carry both -o and -p (the usage text: -p prints INSTEAD of writing a file)
         let w: [u32; 4] = if crate::engine::gen_version() >= 2 { [5, 3, 2, 1] } else { [5, 3, 2, 0] };
